@@ -13,6 +13,10 @@ def main():
     for profile in ("dev", "release"):
         _, dt = simr.build(profile, DEFAULT_SEED, "quick")
         log("setup: recsim %s built in %.1fs" % (profile, dt))
+    for pkg in ("simgen", "thrsim"):
+        with BuildLock():
+            run(["cargo", "build", "--offline", "-p", pkg], cwd=SIM, env=cargo_env())
+        log("setup: %s built" % pkg)
     # warm the Miri build (sysroot is pre-built in the image)
     env = cargo_env()
     env["CARGO_TARGET_DIR"] = os.path.join(TARGET, "miri")
